@@ -291,6 +291,35 @@ def run_unit(unit, rng, ctx):
         o_gem = models.dijkstra(nb_gem, allowed, start, stop, cost) if diagonal else o_full
         judge_cost(ctx, what, {**wit, 'sites': sites}, method, c, o_full, o_gem, diagonal)
         ctx.count(f'method:{method}')
+    # ---- the n best paths: every returned path is a valid path between the requested voxels, reports its own
+    # energies, the first one is the optimum -------------------------
+    if len(nodes) >= 3 and unit['i'] % 2 == 0:
+        a_, b_ = (nodes[int(i_)] for i_ in rng.choice(len(nodes), size=2, replace=False))
+        what = f'{what0} optimal_n_paths {a_}->{b_}'
+        wit = {**wit0, 'start': a_, 'stop': b_}
+        try:
+            plist = F.optimal_n_paths(F_graph=G, start=a_, stop=b_, n_paths=int(rng.integers(2, 5)), min_diff=0.0)  # any min_diff > 0 can make the library enumerate every simple path of the grid (its documented caveat); 0 accepts each distinct path
+        except (nx.NetworkXNoPath, nx.NodeNotFound):
+            plist = None
+            o_ = models.dijkstra(nb_gem, allowed, a_, b_, edge_cost_fn(Fd, 'dijkstra', thr))
+            ctx.check(o_ == float('inf'), f'{what}: raised although a path of cost {o_!r} exists', wit)
+        if plist:
+            seen_ = set()
+            for pi_, pth in enumerate(plist):
+                sites = [tuple(int(x) for x in s_) for s_ in pth.sites]
+                ctx.check(sites[0] == a_ and sites[-1] == b_, f'{what}: path {pi_} runs {sites[0]} -> {sites[-1]}', wit)
+                err = valid_steps(sites, shape, nb_full, allowed)
+                ctx.check(err is None, f'{what}: path {pi_}: {err}', {**wit, 'sites': sites})
+                en = [float(e) for e in pth.energy]
+                ctx.check(len(en) == len(sites) and all(e == Fd[s_] for e, s_ in zip(en, sites)), f'{what}: path {pi_} does not report the free energies of its voxels', {**wit, 'sites': sites, 'energy': en})
+                seen_.add(tuple(sites))
+            s0 = [tuple(int(x) for x in s_) for s_ in plist[0].sites]
+            if valid_steps(s0, shape, nb_full, allowed) is None:
+                cst = edge_cost_fn(Fd, 'dijkstra', thr)
+                judge_cost(ctx, what + ' (first path)', {**wit, 'sites': s0}, 'dijkstra', path_cost(s0, cst), models.dijkstra(nb_full, allowed, a_, b_, cst), models.dijkstra(nb_gem, allowed, a_, b_, cst) if diagonal else models.dijkstra(nb_full, allowed, a_, b_, cst), diagonal)
+            ctx.count('n_best_path_lists_checked')
+            ctx.count('paths_in_n_best_lists', len(plist))
+            ctx.count('distinct_paths_in_n_best_lists', len(seen_))
     # ---- percolating paths ----------------------------------------------------------------------
     n_perc = 0
     for _ in range(2):
